@@ -157,3 +157,91 @@ func vfC11Account(compressed bool) {
 
 func VF_C11_s_plain()      { vfC11Account(false) }
 func VF_C11_s_compressed() { vfC11Account(true) }
+
+// ---------------------------------------------------------------------------------------------
+// C11.v — the same for contract variables: StateDB.GetVarAndProof(key, storageRoot, compressed). The contract storage
+// is the real bufferedStorage (state buffer + storage trie over the same store); values are symbolic 8 bytes stored
+// under their hash. Block 1 writes variable A (and, by choice, B) => storage root1, block 2 rewrites A (and, by
+// choice, B) => root2. The light client hashes the returned value and verifies (key, hash) against the storage root.
+// ---------------------------------------------------------------------------------------------
+
+func vfC11StorageBlock(st *bufferedStorage, kv *vf.KV, ob string) []byte {
+	vf.Assert(st.update() == nil, ob+".err")
+	bulk := kv.NewBulk()
+	vf.Assert(st.stage(bulk) == nil, ob+".err")
+	bulk.Flush()
+	return append([]byte{}, st.Trie.Root...)
+}
+
+func vfC11VerifyVar(kv *vf.KV, root []byte, key types.AccountID, p *types.ContractVarProof, compressed bool) bool {
+	verifier := trie.NewTrie(root, common.Hasher, kv)
+	leafVal := common.Hasher(p.GetValue())
+	if compressed {
+		return verifier.VerifyInclusionC(p.GetBitmap(), key[:], leafVal, p.GetAuditPath(), int(p.GetHeight()))
+	}
+	return verifier.VerifyInclusion(p.GetAuditPath(), key[:], leafVal)
+}
+
+func vfC11Var(compressed bool) {
+	ob := "C11.v"
+	vf.NoMapPerm(true)
+	kv := vf.NewKV()
+	st := newBufferedStorage(nil, kv)
+	kA := vfC11ID("kA")
+	kB := vfC11ID("kB")
+	vf.Assume(kA != kB)
+	a1 := vf.Bytes("a1", 8)
+	a2 := vf.Bytes("a2", 8)
+	st.put(newValueEntry(types.HashID(kA), a1))
+	if vf.Choice("B1", 2) == 1 {
+		st.put(newValueEntry(types.HashID(kB), vf.Bytes("b1", 8)))
+	}
+	root1 := vfC11StorageBlock(st, kv, ob)
+	st.put(newValueEntry(types.HashID(kA), a2))
+	if vf.Choice("B2", 2) == 1 {
+		st.put(newValueEntry(types.HashID(kB), vf.Bytes("b2", 8)))
+	}
+	root2 := vfC11StorageBlock(st, kv, ob)
+
+	q := NewStateDB(kv, nil, false) // the account state DB the chain service queries; only its store matters here
+	same := bytes.Equal(a1, a2)
+	for r, root := range [][]byte{root1, root2} {
+		want, other := a1, root2
+		if r == 1 {
+			want, other = a2, root1
+		}
+		p, err := q.GetVarAndProof(kA[:], root, compressed)
+		vf.Reach(ob)
+		vf.Assert(err == nil, ob+".err")
+		if err != nil {
+			return
+		}
+		vf.Assert(p.GetInclusion(), ob+".value")
+		vf.Assert(bytes.Equal(p.GetValue(), want), ob+".value")
+		vf.Assert(vfC11VerifyVar(kv, root, kA, p, compressed), ob+".complete")
+		vf.Assert(vf.Implies(vfC11VerifyVar(kv, other, kA, p, compressed), same), ob+".bind")
+	}
+	kC := vfC11ID("kC")
+	vf.Assume(kC != kA)
+	vf.Assume(kC != kB)
+	p, err := q.GetVarAndProof(kC[:], root1, compressed)
+	vf.Assert(err == nil, ob+".err")
+	if err != nil {
+		return
+	}
+	vf.Assert(!p.GetInclusion(), ob+".absent")
+	vf.Assert(len(p.GetValue()) == 0, ob+".absent")
+	verifier := trie.NewTrie(root1, common.Hasher, kv)
+	var ok bool
+	if compressed {
+		ok = verifier.VerifyNonInclusionC(p.GetAuditPath(), int(p.GetHeight()), p.GetBitmap(), kC[:], p.GetProofVal(), p.GetProofKey())
+	} else {
+		ok = verifier.VerifyNonInclusion(p.GetAuditPath(), kC[:], p.GetProofVal(), p.GetProofKey())
+	}
+	vf.Assert(ok, ob+".absent")
+	vf.Observe("same", same)
+	vf.Observe("height", p.GetHeight())
+}
+
+func VF_C11_v_plain()      { vfC11Var(false) }
+func VF_C11_v_compressed() { vfC11Var(true) }
